@@ -32,6 +32,7 @@ XSD = '''<xs:schema xmlns:xs="http://www.w3.org/2001/XMLSchema" targetNamespace=
  <xs:key name="K"><xs:selector xpath="t:s/t:item"/><xs:field xpath="@n"/></xs:key>
  <xs:keyref name="R" refer="t:K"><xs:selector xpath="t:s/t:link"/><xs:field xpath="@to"/></xs:keyref>
  <xs:unique name="U"><xs:selector xpath="t:s"/><xs:field xpath="@code"/></xs:unique>
+ <xs:unique name="UQ"><xs:selector xpath="t:s/t:item"/><xs:field xpath="@q"/></xs:unique>
 </xs:element></xs:schema>'''
 PFX = {7: 'p', 8: 'q', 9: 'o'}
 URI = {1: 'urn:u1', 2: 'urn:u2', 3: 'urn:o'}
@@ -89,6 +90,14 @@ def gen_doc(rng, big=False, faults=True, huge=False):
 
     # QName values that use the prefixes in scope: declared on the item itself, on its section (a chunk root of lazy depth 1)
     # or on an enclosing section
+    qn = [0]
+
+    def local():
+        # QName values are fields of the unique constraint UQ held by the root (items of the top-level sections): mostly
+        # distinct local names, with faults the same local name under prefixes bound to the same or to different namespaces
+        qn[0] += 1
+        return 'n%d' % (qn[0] if not (faults and rng.random() < 0.3) else rng.randint(1, max(1, qn[0])))
+
     def walk(n, scope):
         scope = scope | {PFX[p] for p, _u in n['decls']}
         if n['tag'] == 'item' and rng.random() < 0.4:
@@ -96,9 +105,9 @@ def gen_doc(rng, big=False, faults=True, huge=False):
                 n['attrs']['q'] = 'zz:name'
             elif faults and rng.random() < 0.25 and {'p', 'q'} - scope:
                 # a prefix that other elements of the document declare (possibly the previous chunk) but is not in scope here
-                n['attrs']['q'] = '%s:name' % rng.choice(sorted({'p', 'q'} - scope))
+                n['attrs']['q'] = '%s:%s' % (rng.choice(sorted({'p', 'q'} - scope)), local())
             else:
-                n['attrs']['q'] = '%s:name' % rng.choice(sorted(scope))
+                n['attrs']['q'] = '%s:%s' % (rng.choice(sorted(scope)), local())
         for k in n['kids']:
             walk(k, scope)
     walk(doc, {'t'})
